@@ -46,7 +46,7 @@ var c12Kinds = [5]RecursionWorkKind{RecursionWorkOutboundQuery, RecursionWorkInt
 // the first rejected dimension; shadow mode only counts.
 //
 //verif:entry tier=quick,thorough
-//verif:bound all policies (mode off/shadow/enforce, every 32-bit limit), all five aggregate dimensions, arbitrary counter <= limit, arbitrary previous latch; at each of this caller's atomic operations other debitors may or may not act, up to 2 (quick) / 3 (thorough) times in total
+//verif:bound all policies (mode off/shadow/enforce, every 32-bit limit), all five aggregate dimensions, arbitrary counter <= limit, arbitrary previous latch; at each of this caller's atomic operations other debitors may or may not act, up to 2 times in total (3 was solver-unknown and is outside the claim)
 func VerifC12_Debit() {
 	mode := RecursionWorkMode(vChoice("mode", 3))
 	p := RecursionWorkPolicy{Mode: mode, MaxOutboundQueries: vU32("maxOutbound"), MaxInternalQueries: vU32("maxInternal"),
@@ -67,9 +67,8 @@ func VerifC12_Debit() {
 	l.first.Store(first0)
 	c12.l, c12.kind, c12.envTotal = l, kind, 0
 	c12.envLeft = 2
-	if vTier() > 0 {
-		c12.envLeft = 3
-	}
+	// three interference acts came back 'unknown' from every back end within
+	// the budget: both tiers allow two
 	err := l.Debit(kind)
 	c12.l = nil
 	post := counter.Load()
